@@ -589,6 +589,9 @@ type vC14Corpus struct {
 		ExtraHex   string `json:"extra_hex"` // appended to the digest ToDS produces
 		FrontHex   string `json:"front_hex"` // put in front of it
 		Genuine    bool   `json:"genuine_follows"`
+		// the first DS gets this owner instead of the zone's (a relative name: outside the property's
+		// domain); the case is then a probe — model checked, nothing judged
+		ProbeOwner string `json:"probe_owner"`
 	} `json:"verifyds"`
 	Suffix []struct {
 		Note string `json:"note"`
@@ -671,6 +674,11 @@ func TestVerifC14Prim(t *testing.T) {
 		set, dss := []dns.RR{d}, []*dns.DS{d}
 		if c.Genuine {
 			set, dss = append(set, genuine), append(dss, genuine)
+		}
+		if c.ProbeOwner != "" {
+			d.Hdr.Name = c.ProbeOwner
+			vC14EmitVerifyDS(tr, c.Zone, 1, map[uint16][]*dns.DNSKEY{k.KeyTag(): {k}}, set, dss, "probe: "+c.Note)
+			continue
 		}
 		vC14EmitVerifyDS(tr, c.Zone, 1, map[uint16][]*dns.DNSKEY{k.KeyTag(): {k}}, set, dss, c.Note)
 	}
@@ -1640,6 +1648,11 @@ func vC14EmitVerifyDS(tr *vC14Trace, zone string, nkeys int, keyMap map[uint16][
 	}
 	if note != "" {
 		kind = "verifyds-corpus"
+	}
+	if strings.HasPrefix(note, "probe: ") {
+		tr.emit("verifyds-probe", fmt.Sprintf("CaseDSProbe [%s] [%s] [%s] %s %d", strings.Join(km, "; "), strings.Join(ds, "; "), strings.Join(orcs, "; "), vC14Bool(gotU), code),
+			"", false, map[string]any{"zone": zone, "ds": len(dss), "unsupported_only": gotU, "err": fmt.Sprint(gotErr), "reference_ok": refOK, "note": note})
+		return
 	}
 	tr.emit(kind, fmt.Sprintf("CaseVerifyDS [%s] [%s] [%s] (%s, %s) (%s, %s) %d %s %s", strings.Join(km, "; "), strings.Join(ds, "; "), strings.Join(orcs, "; "),
 		vC14Bool(gotU), vC14Bool(gotErr == nil), vC14Bool(refU), vC14Bool(refOK), code, gotMCoq, refMCoq), fail, len(dss) > 0,
